@@ -8,7 +8,7 @@ out = []
 cases = []  # (label, typename, quick)
 
 
-def emit(name, label, field_ty, make_expr, slot_expr, quick):
+def emit(name, label, field_ty, make_expr, slot_expr, quick, drop_extra=""):
     out.append(f"""
 pub struct {name} {{
     id: u8,
@@ -26,7 +26,7 @@ impl Finalize for {name} {{
 }}
 impl Drop for {name} {{
     fn drop(&mut self) {{
-        mini::on_drop(self as *const Self as usize);
+        mini::on_drop(self as *const Self as usize);{drop_extra}
     }}
 }}
 impl MiniPayload for {name} {{
@@ -102,6 +102,24 @@ singles = [
 ]
 for (name, label, ty, mk, slot, quick) in singles:
     emit(name, label, selfify(ty.replace("{L}", L), name), mk.replace("{NEW}", NEW), slot, quick)
+
+# ManuallyDrop (alone and inside sequences: an element type without drop glue that still owns a Cc). The payload's own
+# Drop releases the content by hand, so the ownership semantics are those of the plain container.
+MD = "std::mem::ManuallyDrop"
+md_cases = [
+    ("MdOf", "ManuallyDrop<T>", f"{MD}<{{L}}>", f"{MD}::new({{NEW}})", "&*self.c", True,
+     "\n        unsafe { std::mem::ManuallyDrop::drop(&mut self.c) }"),
+    ("VecMd", "Vec<ManuallyDrop<T>> position 1", f"Vec<{MD}<{{L}}>>", f"vec![{MD}::new({{NEW}}), {MD}::new({{NEW}})]", "&*self.c[1]", True,
+     "\n        for e in self.c.iter_mut() { unsafe { std::mem::ManuallyDrop::drop(e) } }"),
+    ("ArrMd", "[ManuallyDrop<T>; 2] position 0", f"[{MD}<{{L}}>; 2]", f"[{MD}::new({{NEW}}), {MD}::new({{NEW}})]", "&*self.c[0]", True,
+     "\n        for e in self.c.iter_mut() { unsafe { std::mem::ManuallyDrop::drop(e) } }"),
+    ("SliceOptTupMd", "Box<[Option<(u32, ManuallyDrop<T>)>]> position 1", f"Box<[Option<(u32, {MD}<{{L}}>)>]>", f"vec![None, Some((7u32, {MD}::new({{NEW}})))].into_boxed_slice()", "&*self.c[1].as_ref().unwrap().1", False,
+     "\n        for e in self.c.iter_mut().flatten() { unsafe { std::mem::ManuallyDrop::drop(&mut e.1) } }"),
+    ("MdVec", "ManuallyDrop<Vec<T>> position 0", f"{MD}<Vec<{{L}}>>", f"{MD}::new(vec![{{NEW}}])", "&self.c[0]", False,
+     "\n        unsafe { std::mem::ManuallyDrop::drop(&mut self.c) }"),
+]
+for (name, label, ty, mk, slot, quick, de) in md_cases:
+    emit(name, label, selfify(ty.replace("{L}", L), name), mk.replace("{NEW}", NEW), slot, quick, de)
 
 hdr = """// GENERATED by harness/gen/gen_containers.py - do not edit.
 #![allow(clippy::type_complexity)]
